@@ -185,6 +185,8 @@ def s_trunc(draw):
 
 def t_trunc(ctx):
     ctx.hyp(s_trunc(), ctx.n(60, 800), fn=check_trunc)
+    if ctx.shard == 0:
+        ctx.exhaustive.append('every truncation point of every generated structured script (as scriptPubKey, as scriptSig and as P2SH redeem script)')
 
 
 @st.composite
